@@ -111,7 +111,9 @@ fn extract_ipv4_info(packet: &[u8]) -> Option<(IpAddr, IpAddr, u16, u16)> {
     let dst_ip = IpAddr::V4(Ipv4Addr::new(packet[16], packet[17], packet[18], packet[19]));
 
     // Get IP header length (first 4 bits of byte 0, in 32-bit words)
-    let ihl = (packet[0] & 0x0F) as usize;
+    // A header length below the 20-byte minimum is invalid; the analyzer (pnet) then reads the
+    // TCP header right after the fixed 20 bytes, so the filter must look at the same place.
+    let ihl = ((packet[0] & 0x0F) as usize).max(5);
     let ip_header_len = ihl.saturating_mul(4);
 
     // TCP header starts after IP header
